@@ -31,7 +31,9 @@ def yearOk (r : YearRange) (d : Int) : Bool :=
 
 /-- instance of a date on year `y`: a fixed date whose day does not exist is moved forward to the
 next existing day when it opens a range (`after`) and backward to the last existing day when it
-closes one; a date with a year has an instance on that year only -/
+closes one; a date with a year has an instance on that year only.  Instances exist on the years chrono
+can represent (`minYear … maxYear`, about ±262 000) and on no other: the property text is silent about
+dates outside of the calendar of the library, and the evaluated days are those of 1900–9999. -/
 def dateInstance (ds : DateSpec) (y : Int) (after : Bool) : Option Int :=
   match ds with
   | .easter yr =>
@@ -42,7 +44,7 @@ def dateInstance (ds : DateSpec) (y : Int) (after : Bool) : Option Int :=
       | some r => some r
       | none =>
         -- clamp inside 28..31: forward = first day of the next month, backward = last day of the month
-        if dd > daysInMonth y m ∧ 1 ≤ m ∧ m ≤ 12 ∧ dd ≤ 31 then
+        if minYear ≤ y ∧ y ≤ maxYear ∧ dd > daysInMonth y m ∧ 1 ≤ m ∧ m ≤ 12 ∧ dd ≤ 31 then
           (if after then some (ymdRaw y m (daysInMonth y m) + 1) else some (ymdRaw y m (daysInMonth y m)))
         else none
     else none
@@ -51,7 +53,10 @@ def dateInstance (ds : DateSpec) (y : Int) (after : Bool) : Option Int :=
 represent (beyond ±262 000 years); the specification adopts the code's reading there: every day shift
 SATURATES at `NaiveDate::MIN` / `NaiveDate::MAX` (`OH.Model.addDaysSat`, the repaired
 `add_days_saturating`), for the day offset and for the weekday shift alike — exactly as `DateOffset::apply`
-does.  Whenever the shifted day is representable this is the plain sum. -/
+does.  Whenever the shifted day is representable this is the plain sum.  For the days the library evaluates
+(1900–9999, far inside the calendar) a start pinned at the first date reads "started before every day that
+can be asked about" and an end pinned at the last date "ends after every such day"; a start pinned at the
+last date lies after, and an end pinned at the first date before, every evaluated day. -/
 def shift (o : DateOffset) (d : Int) : Int :=
   let d1 := addDaysSat d o.days
   match o.wday with
@@ -59,8 +64,10 @@ def shift (o : DateOffset) (d : Int) : Int :=
   | .prev t => addDaysSat d1 (-(((7 + weekday d1 - t) % 7 : Nat) : Int))
   | .next t => addDaysSat d1 (((7 + t - weekday d1) % 7 : Nat) : Int)
 
-/-- how many years around the evaluated day the instances of a shifted bound have to be looked for -/
-def yearSpan (so eo : DateOffset) : Nat := 3 + (so.days.natAbs + eo.days.natAbs) / 365
+/-- how many years around the evaluated day the instances of a shifted bound have to be looked for: as many
+as the day offsets can move a bound, and never more than the whole calendar (272 200 years on either side of
+any day of 1899–9999 cover every year chrono can represent, and no other year carries an instance) -/
+def yearSpan (so eo : DateOffset) : Nat := min (3 + (so.days.natAbs + eo.days.natAbs) / 365) 272200
 
 def yearsNear (y : Int) (w : Nat) : List Int := (List.range (2 * w + 1)).map (fun (i : Nat) => y - (w : Int) + (i : Int))
 
@@ -250,23 +257,21 @@ def datedWindowRisk (s : DateSpec) (so : DateOffset) (e : DateSpec) (eo : DateOf
 def exprWindowRisk (e : Expr) : Bool :=
   e.any (fun r => r.day.monthday.any (fun m => match m with | .date s so e eo => datedWindowRisk s so e eo | _ => false))
 
-/-- Open known finding (class `dated-offset-beyond-calendar`): a dated range one of whose day offsets is beyond
-±92 000 000 days (about 252 000 years; `2020 Jan 1 -100000000 days-Feb 1`, `Jan 01 -95700000 days-Jan 10`): for
-some day of 1900–9999 the day `d - offset`, or a year of the search window around it, is not one chrono can
-represent.  The code's shifts saturate at `NaiveDate::MIN`/`MAX`, `valid_ymd_before/after` answer `DATE_END` for a
-year that cannot be built, and the `(DATE_START, end)` intervals that `intervals_from_bounds` makes of leftover ends
-are reached: the filter then disagrees with this (saturating) specification on some shapes.  Nothing panics and the
-hint stays consistent with the filter (brute force on the model).
-FORMER class `dated-shift-over-a-year` (a bound moved by more than a year left the fixed search windows around the
-evaluated day's year: `Jan 01 +400 days-Jan 10 +770 days`): closed by centring the windows on the year of
-`d - day offset` (`OH.Model.yearBeforeOffset`); refinement and hint soundness are PROVED for every offset within
-±100 000 days (OH/Props/C01.lean `exprDatedPlain`, OH/Props/C02B.lean `exprHintSafe`); between ±100 000 and
-±92 000 000 days nothing is proved and nothing is known to fail.  The class is decided on the rule alone. -/
-def datedBigShift (_s : DateSpec) (so : DateOffset) (_e : DateSpec) (eo : DateOffset) : Bool :=
-  so.days.natAbs > 92000000 || eo.days.natAbs > 92000000
-
-def exprBigShift (e : Expr) : Bool :=
-  e.any (fun r => r.day.monthday.any (fun m => match m with | .date s so e eo => datedBigShift s so e eo | _ => false))
+/-! FORMER known findings of dated ranges, both closed (no class is left; the oracle judges every dated range
+whose meaning is defined):
+ * `dated-shift-over-a-year` (a bound moved by more than a year left the fixed search windows around the
+   evaluated day's year: `Jan 01 +400 days-Jan 10 +770 days`): closed by centring the windows on the year of
+   `d - day offset` (`OH.Model.yearBeforeOffset`, /repo 04e05fd);
+ * `dated-offset-beyond-calendar` (a day offset beyond about ±92 000 000 days, so that `d - offset` or a year of
+   the search window around it is not one chrono can represent: `2020 Jan 1 -100000000 days-Feb 1`,
+   `Jan 01 -95700000 days-Jan 10`): closed by /repo 5cdd92e — a bound has no occurrence on a year that cannot be
+   represented (`valid_ymd_before/after` answered `DATE_END` for such a year) and the ends that are left after the
+   last start close nothing (`intervals_from_bounds` made `(DATE_START, end)` intervals of them).  The code now
+   computes the reading documented at `shift`/`dateInstance`: occurrences exist on the years chrono can
+   represent, shifted days are pinned at its extreme dates.
+Refinement and hint soundness are PROVED for every offset within ±100 000 days (OH/Props/C01.lean
+`exprDatedPlain`, OH/Props/C02B.lean `exprHintSafe`); beyond that the model is compared with this specification
+by brute force (lean/scratch/BFDated.lean) and by the oracle on generated offsets up to ±10⁹ days. -/
 
 /-- every dated range of the expression has a defined meaning -/
 def exprDefined (e : Expr) : Bool :=
